@@ -83,14 +83,15 @@ let run_case op t =
         | Ok ((true, _), _) -> "format-failed"
         | r -> res_s (fun _ -> "") r in
       (m, if dom_charconv base then join [ "ok"; "1"; str_of_z v ] else "na")
-  | "to_integer" ->
+  | "to_integer" | "to_integer_nc" ->
+      let checked = op = "to_integer" in
       let ty = ity_of (next_str t) in
       let ws = next_bool t in let plus = next_bool t in
       let base = next_z t in let s = next_codes t in
       let m = res_s (fun ((e, err), v) ->
           join [ (match err with TiNone -> "ok" | TiInvalid -> "invalid" | TiOverflow -> "overflow");
                  string_of_int (int_of_nat e); str_of_z v ])
-          (to_integer_m ty ws plus s (cast ty base)) in
+          ((if checked then to_integer_m else to_integer_nc_m) ty ws plus s (cast ty base)) in
       (m, "na")
   | "to_string" ->
       let ty = ity_of (next_str t) in
